@@ -193,12 +193,52 @@ class Body:
             elif k == "asm":
                 for tb in t.get("ts", []):
                     succs[i].append((tb, "asm"))
+        # `Err(e)?` / `None?`: Try::branch of a value built as the failing variant never takes
+        # the Continue edge — drop that edge (sound refinement of the CFG)
+        try:
+            self._prune_constant_try_edges(succs)
+        except Exception:
+            pass
         preds = [[] for _ in range(n)]
         for i, ss in enumerate(succs):
             for (tb, lab) in ss:
                 preds[tb].append((i, lab))
         self._succs = succs
         self._preds = preds
+
+    def _prune_constant_try_edges(self, succs):
+        bad = {("core::result::Result", "Err"), ("core::option::Option", "None")}
+        for i, b in enumerate(self.blocks):
+            t = b["t"]
+            if t["k"] != "call" or t["f"].get("k") != "fn" or t["f"]["fn"]["path"] != "core::ops::try_trait::Try::branch":
+                continue
+            args = t.get("args", [])
+            if not args:
+                continue
+            l = op_local(args[0])
+            seen = set()
+            const_fail = False
+            while l is not None and l not in seen:
+                seen.add(l)
+                ds = [(bb, s) for bb, bl in enumerate(self.blocks) if not bl.get("cleanup") for s in bl.get("s", [])
+                      if s["k"] == "assign" and s["pl"]["l"] == l and not s["pl"].get("p")]
+                calls_def = [bl for bl in self.blocks if bl["t"]["k"] == "call" and bl["t"].get("dest", {}).get("l") == l]
+                if len(ds) != 1 or calls_def:
+                    break
+                rv = ds[0][1]["rv"]
+                if rv["k"] == "agg" and rv.get("ak") == "adt" and (rv["adt"], rv["variant"]) in bad:
+                    const_fail = True
+                    break
+                if rv["k"] == "use" and op_local(rv["op"]) is not None and not rv["op"].get("p"):
+                    l = op_local(rv["op"])
+                    continue
+                break
+            if not const_fail or t.get("t") is None:
+                continue
+            tb = t["t"]
+            tt = self.blocks[tb]["t"]
+            if tt["k"] == "switch":
+                succs[tb] = [(x, lab) for (x, lab) in succs[tb] if lab != ("sw", 0)]
 
     def reach(self, starts, cut_blocks=(), cut_edges=()):
         """blocks reachable from `starts` (inclusive) without entering cut_blocks or using
